@@ -528,6 +528,9 @@ func runC15(c *fw.Ctx, idx int) fw.Result {
 		th := fmt.Sprint(pickThreads(r))
 		a1 := append([]string{"variants", "--msa", mp, "-r", ac.an.RefName, "-a", ap, "-t", th}, extra...)
 		a2 := append([]string{"variants", "-r", ac.an.RefName, "-a", ap, "-t", th}, extra...)
+		if idx%12 == 5 {
+			a2 = append(a2, "--msa", "stdin") // the documented default spelled out
+		}
 		r1 := fw.RunBin(c.Bin, a1, nil, nil, "", 60*time.Second)
 		r2 := fw.RunBin(c.Bin, a2, []byte(msaTxt), nil, "", 60*time.Second)
 		res.Evals += 2
